@@ -36,6 +36,16 @@ CHECKS = {
              'aggregate bits and requested amounts; z3 proves listed <=> '
              'matches(p) for every provider on every path.',
         ref='DESIGN.md section 5 C13, Appendix B'),
+    'C14': dict(
+        text='Symbolic microversion: the application receives Version(1, m) '
+             'with m a z3 integer in [0,39]; for each of 70 probing requests '
+             '(one per documented feature) every version branch of the real '
+             'handlers is explored and z3 proves observable present <=> '
+             'lo <= m < hi, i.e. all 40 versions are decided at once and an '
+             'off-by-one boundary yields the exact minor as counterexample. '
+             'Route x method availability likewise. Header negotiation '
+             'strings are enumerated concretely (stated as enumeration).',
+        ref='DESIGN.md section 5 C14, Appendix C'),
     'C19': dict(
         text='(a) z3 regular-expression inclusion of the real schema '
              'patterns (Python search/$ semantics) in CUSTOM_[A-Z0-9_]+ for '
